@@ -173,6 +173,8 @@ REGISTRY = {
         "rules": [exponent.rule_linop_dtype, dmrg.rule_sandwich_orientation,
             dmrg.rule_lockstep, dmrg.rule_mirror_blocks, registries.rule_dense_linop_agree,
             P(dmrg.rule_sweep_memory, sites=[("quimb.tensor.tn1d.dmrg", "DMRG.solve", ("sweep",), "canonize")]),
+            dmrg.rule_skip_licence_intact,
+            P(iso.rule_iso_claim, only_modules=("quimb.tensor.tn1d.dmrg",), rule="iso-claim[dmrg]"),
             P(optflow.rule_option_delivery, opts=("bra",), modules=("quimb.tensor.tn1d.core", "quimb.tensor.tensor_core", "quimb.tensor.tn2d.core"),
               rule="bra-forwarding", floor=10,
               description="every function with a `bra` parameter forwards bra=bra to each callee that accepts `bra` (a dropped bra "
@@ -267,7 +269,7 @@ REGISTRY = {
         "assumptions": COMMON_ASSUMPTIONS,
     },
     "C18": {
-        "rules": [evo.rule_kind_dispatch, evo.rule_update_order, evo.rule_evo_eq_table, evo.rule_integrator_setup, evo.rule_congruence, evo.rule_faithful_state],
+        "rules": [evo.rule_kind_dispatch, evo.rule_update_order, evo.rule_evo_eq_table, evo.rule_integrator_setup, evo.rule_congruence, evo.rule_faithful_state, evo.rule_evo_clock],
         "explanation": (
             "static (dispatch-table extraction over Evolution.__init__ and its set-up helpers): decides that every "
             "method x state-kind combination is dispatched on self._isdop or rejected, that unsupported "
@@ -292,7 +294,8 @@ REGISTRY = {
     },
     "C05": {
         "rules": [decomp.rule_absorb_tables, decomp.rule_cutoff_tables, decomp.rule_guard_agree,
-                  decomp.rule_clamp, decomp.rule_use_or_reject, decomp.rule_split_flags, decomp.rule_cache_immut, decomp.rule_cache_typed, decomp.rule_alias_normalised, decomp.rule_renorm_power_siblings, decomp.rule_full_spectrum_before_trim],
+                  decomp.rule_clamp, decomp.rule_use_or_reject, decomp.rule_split_flags, decomp.rule_cache_immut, decomp.rule_cache_typed, decomp.rule_alias_normalised, decomp.rule_renorm_power_siblings, decomp.rule_full_spectrum_before_trim, decomp.rule_delegation_complete, decomp.rule_nonneg_before_sqrt,
+                  P(iso.rule_iso_claim, only_modules=("quimb.tensor.tensor_core", "quimb.tensor.decomp"), rule="iso-claim[split]")],
         "explanation": (
             "static (constant evaluation of the module-level tables + decision-table extraction + sibling "
             "comparison): decides that the absorb / cutoff-mode vocabularies are decoded identically by the "
@@ -304,7 +307,7 @@ REGISTRY = {
         "assumptions": COMMON_ASSUMPTIONS,
     },
     "C01": {
-        "rules": [exponent.rule_partial_contraction_inds, exponent.rule_linop_dtype, exponent.rule_sum_exponents, exponent.rule_exp_drop, exponent.rule_exp_flow, exponent.rule_exp_combine, exponent.rule_linop,
+        "rules": [exponent.rule_partial_contraction_inds, exponent.rule_linop_dtype, exponent.rule_sum_exponents, exponent.rule_conj_mangle_universe, exponent.rule_exp_drop, exponent.rule_exp_flow, exponent.rule_exp_combine, exponent.rule_linop,
                   exponent.rule_carrier_derivation, exponent.rule_hyper_count],
         "explanation": (
             "static (AST def-use flag closure): decides exponent accounting — every evaluator that turns tensors "
@@ -318,7 +321,7 @@ REGISTRY = {
     },
     "C02": {
         "rules": [maps.rule_map_owner, maps.rule_rename_notifies, maps.rule_pairing,
-                  maps.rule_copy_complete, maps.rule_extra_props, maps.rule_collision_provenance],
+                  maps.rule_copy_complete, maps.rule_extra_props, maps.rule_collision_provenance, maps.rule_tid_rebind],
         "explanation": (
             "static (AST who-may-write + structural pairing rules): decides the structural conditions under "
             "which the lookup maps can never go stale — only the maintaining methods write tensor_map / ind_map / "
@@ -330,7 +333,7 @@ REGISTRY = {
         "assumptions": COMMON_ASSUMPTIONS,
     },
     "C03": {
-        "rules": [caches.rule_derived_cache_invalidate, caches.rule_stale_receiver, caches.rule_inplace_returns, inplace.rule_inplace_effect, inplace.rule_alias_spelling, inplace.rule_array_immut, inplace.rule_operator_pure, inplace.rule_axis_by_label],
+        "rules": [caches.rule_derived_cache_invalidate, caches.rule_stale_receiver, caches.rule_inplace_returns, inplace.rule_inplace_effect, inplace.rule_alias_spelling, inplace.rule_array_immut, inplace.rule_operator_pure, inplace.rule_axis_by_label, inplace.rule_positional_handover],
         "explanation": (
             "static (AST + interprocedural alias/effect analysis): decides the non-mutation clause of C03 — "
             "every plain spelling of an (f, f_) pair leaves its receiver, the tensors it shares and their "
